@@ -160,9 +160,18 @@ fn op_check(req: &Value) -> Value {
         for (k, v) in &info.const_kinds {
             ckinds.insert(k.clone(), json!(format!("{v:?}")));
         }
+        // the type the checker recorded for each const initializer (root expression span)
+        let mut ctypes = Map::new();
+        for d in &prog.declarations {
+            if let incan_syntax::ast::Declaration::Const(c) = &d.node {
+                if let Some(t) = info.expr_type(c.value.span) {
+                    ctypes.insert(c.name.clone(), json!(t.to_string()));
+                }
+            }
+        }
         match res {
-            Ok(()) => json!({"ok": true, "consts": consts, "const_kinds": ckinds}),
-            Err(errs) => json!({"ok": false, "stage": "check", "consts": consts,
+            Ok(()) => json!({"ok": true, "consts": consts, "const_kinds": ckinds, "const_types": ctypes}),
+            Err(errs) => json!({"ok": false, "stage": "check", "consts": consts, "const_types": ctypes,
                 "errs": errs.iter().map(project::diag).collect::<Vec<_>>()}),
         }
     });
